@@ -152,7 +152,7 @@ pub fn dir_name() -> BoxedStrategy<String> {
 pub fn model_file(max_content: usize) -> BoxedStrategy<ModelFile> {
     (
         dir_name(),
-        "[a-z]{1,6}(\\.[a-z]{1,3})?",
+        prop_oneof![12 => "[a-z]{1,6}(\\.[a-z]{1,3})?", 1 => Just("TRAILER!!!".to_string())],
         prop_oneof![6 => (0u16..0o10000).prop_map(|p| 0o100000 | p), 1 => (0u16..0o10000).prop_map(|p| 0o040000 | p), 1 => Just(0o120777u16)],
         any::<u32>(),
         prop_oneof![4 => Just(0u32), 1 => Just(64u32), 1 => Just(1u32), 1 => Just(2u32)],
